@@ -2,6 +2,8 @@ package interp
 
 import (
 	"fmt"
+	"math"
+	"strconv"
 	"go/types"
 	"sort"
 	"strings"
@@ -144,6 +146,8 @@ type Stats struct {
 	Inconclusive   int64
 	RuntimeVCs     int64
 	DecidedNoSolve int64
+	UFFacts        int64
+	UFRefuted      int64
 	UnsupportedWhy map[string]int64
 	Funcs          map[string]bool
 	Intrinsics     map[string]bool
@@ -169,6 +173,8 @@ func (s *Stats) Merge(o *Stats) {
 	s.Inconclusive += o.Inconclusive
 	s.RuntimeVCs += o.RuntimeVCs
 	s.DecidedNoSolve += o.DecidedNoSolve
+	s.UFFacts += o.UFFacts
+	s.UFRefuted += o.UFRefuted
 	for k, v := range o.UnsupportedWhy {
 		s.UnsupportedWhy[k] += v
 	}
@@ -225,6 +231,8 @@ type Machine struct {
 	constC    map[*ssa.Const]Value
 	identC    map[[2]types.Type]bool
 	rtErrType types.Type
+	ufFacts   []*sym.Term
+	modelRefuted bool
 }
 
 func NewMachine(p *Program, solverName string, timeoutMs int) (*Machine, error) {
@@ -472,8 +480,12 @@ func (m *Machine) Assume(c Value) {
 }
 
 // model asks for a model of the current path condition (plus extra) and renders the
-// nondet values and observations under it.
+// nondet values and observations under it. Applications of the uninterpreted strconv
+// functions are checked against the real strconv on the model's bytes; where the
+// solver's interpretation differs, the true ground fact is added and the query
+// repeated (lazy refinement), so that models are consistent with the real functions.
 func (m *Machine) model(extra *sym.Term) ([]ReplayVal, []string, bool) {
+	m.modelRefuted = false
 	vars := map[string]*sym.Term{}
 	for _, n := range m.nondets {
 		collectValue(n.V, vars)
@@ -481,24 +493,87 @@ func (m *Machine) model(extra *sym.Term) ([]ReplayVal, []string, bool) {
 	for _, o := range m.obs {
 		collectValue(o.V, vars)
 	}
+	if len(m.Ctx.UFs) > 0 {
+		for lit := range m.known {
+			if hasUF(lit) {
+				lit.Collect(vars)
+			}
+		}
+		if extra != nil {
+			extra.Collect(vars)
+		}
+	}
 	names := make([]string, 0, len(vars))
 	for k := range vars {
 		names = append(names, k)
 	}
 	sort.Strings(names)
 	want := make([]*sym.Term, 0, len(names))
+	var apps []*sym.Term
 	for _, k := range names {
 		want = append(want, vars[k])
+		if vars[k].Op == sym.OpUF {
+			apps = append(apps, vars[k])
+		}
 	}
 	if len(want) == 0 {
 		want = nil
 	}
 	var env map[string]uint64
 	if want != nil || extra != nil {
-		var r sym.Result
-		r, env = m.Solver.Check(extra, want)
-		if r != sym.Sat {
-			return nil, nil, false
+		for iter := 0; ; iter++ {
+			q := extra
+			for _, f := range m.ufFacts {
+				if q == nil {
+					q = f
+				} else {
+					q = m.Ctx.And(q, f)
+				}
+			}
+			var r sym.Result
+			r, env = m.Solver.Check(q, want)
+			if r != sym.Sat {
+				if r == sym.Unsat && len(m.ufFacts) > 0 {
+					m.Stats.UFRefuted++
+					m.modelRefuted = true
+				}
+				return nil, nil, false
+			}
+			if len(apps) == 0 {
+				break
+			}
+			added := false
+			for _, app := range apps {
+				bs := make([]byte, len(app.Args))
+				cargs := make([]*sym.Term, len(app.Args))
+				for i, a := range app.Args {
+					v := a.Eval(env)
+					bs[i] = byte(v)
+					cargs[i] = m.Ctx.BV(8, v)
+				}
+				real, ok := ufReal(app.Name, bs)
+				if !ok {
+					continue
+				}
+				if env[app.String()] != real {
+					var rc *sym.Term
+					if app.W == 0 {
+						rc = m.Ctx.Bool(real != 0)
+					} else {
+						rc = m.Ctx.BV(app.W, real)
+					}
+					m.ufFacts = append(m.ufFacts, m.Ctx.Eq(m.Ctx.UF(app.Name, app.W, cargs...), rc))
+					m.Stats.UFFacts++
+					added = true
+				}
+			}
+			if !added {
+				break
+			}
+			if iter >= 24 {
+				m.inconcl = true
+				return nil, nil, false
+			}
 		}
 	}
 	if env == nil {
@@ -547,6 +622,90 @@ func (m *Machine) model(extra *sym.Term) ([]ReplayVal, []string, bool) {
 	return out, obs, true
 }
 
+func hasUF(t *sym.Term) bool {
+	if t.Op == sym.OpUF {
+		return true
+	}
+	for _, a := range t.Args {
+		if hasUF(a) {
+			return true
+		}
+	}
+	return false
+}
+
+// ufReal evaluates an uninterpreted strconv function on concrete bytes with the real
+// strconv. Names: ParseBool_{ok,val}_L<n>, ParseInt_{ok,val,errval}_b<base>_s<bits>_L<n>,
+// ParseFloat_{ok,val,errval}_s<bits>_L<n>.
+func ufReal(name string, bs []byte) (uint64, bool) {
+	parts := strings.Split(name, "_")
+	if len(parts) < 3 {
+		return 0, false
+	}
+	b2u := func(b bool) uint64 {
+		if b {
+			return 1
+		}
+		return 0
+	}
+	s := string(bs)
+	switch parts[0] {
+	case "ParseBool":
+		v, err := strconv.ParseBool(s)
+		switch parts[1] {
+		case "ok":
+			return b2u(err == nil), true
+		case "val":
+			if err != nil {
+				return 0, false
+			}
+			return b2u(v), true
+		}
+	case "ParseInt":
+		if len(parts) < 5 {
+			return 0, false
+		}
+		base, _ := strconv.Atoi(parts[2][1:])
+		bits, _ := strconv.Atoi(parts[3][1:])
+		v, err := strconv.ParseInt(s, base, bits)
+		switch parts[1] {
+		case "ok":
+			return b2u(err == nil), true
+		case "val":
+			if err != nil {
+				return 0, false
+			}
+			return uint64(v), true
+		case "errval":
+			if err == nil {
+				return 0, false
+			}
+			return uint64(v), true
+		}
+	case "ParseFloat":
+		if len(parts) < 4 {
+			return 0, false
+		}
+		bits, _ := strconv.Atoi(parts[2][1:])
+		v, err := strconv.ParseFloat(s, bits)
+		switch parts[1] {
+		case "ok":
+			return b2u(err == nil), true
+		case "val":
+			if err != nil {
+				return 0, false
+			}
+			return math.Float64bits(v), true
+		case "errval":
+			if err == nil {
+				return 0, false
+			}
+			return math.Float64bits(v), true
+		}
+	}
+	return 0, false
+}
+
 func collectValue(v Value, vars map[string]*sym.Term) {
 	switch v := v.(type) {
 	case *sym.Term:
@@ -582,6 +741,28 @@ func collectValue(v Value, vars map[string]*sym.Term) {
 	}
 }
 
+// failWith ends the path with a failure exhibited by a model of pc (and extra). When
+// the ground facts about the real strconv refute every model, the path (or the
+// violation) does not exist for the real functions and nothing is reported.
+func (m *Machine) failWith(kind, msg string, extra *sym.Term) {
+	nd, obs, ok := m.model(extra)
+	if !ok {
+		if m.modelRefuted {
+			if extra == nil {
+				m.end("infeasible", "path refuted by ground facts about strconv")
+			}
+			return
+		}
+		m.inconcl = true
+	}
+	m.Stats.AssertsFailed++
+	m.failure = &Failure{Kind: kind, Msg: msg, Nondets: nd, Obs: obs}
+	if kind == "limit" {
+		m.end("limit", msg)
+	}
+	m.end("assertfail", msg)
+}
+
 // Assert checks a harness assertion.
 func (m *Machine) Assert(c Value, msg string) {
 	switch c := c.(type) {
@@ -590,13 +771,7 @@ func (m *Machine) Assert(c Value, msg string) {
 			m.Stats.AssertsTrivial++
 			return
 		}
-		m.Stats.AssertsFailed++
-		nd, obs, ok := m.model(nil)
-		if !ok {
-			m.inconcl = true
-		}
-		m.failure = &Failure{Kind: "assert", Msg: msg, Nondets: nd, Obs: obs}
-		m.end("assertfail", msg)
+		m.failWith("assert", msg, nil)
 	case *sym.Term:
 		if v, ok := m.lookupKnown(c); ok && v {
 			m.Stats.AssertsTrivial++
@@ -611,16 +786,10 @@ func (m *Machine) Assert(c Value, msg string) {
 			return
 		case sym.Unknown:
 			m.inconcl = true
-			m.Stats.Inconclusive++
 			return
 		}
-		m.Stats.AssertsFailed++
-		nd, obs, ok := m.model(neg)
-		if !ok {
-			m.inconcl = true
-		}
-		m.failure = &Failure{Kind: "assert", Msg: msg, Nondets: nd, Obs: obs}
-		m.end("assertfail", msg)
+		m.failWith("assert", msg, neg)
+		// refuted by ground facts: holds for the real strconv
 	default:
 		panic(fmt.Sprintf("Assert: bad condition %T", c))
 	}
@@ -678,10 +847,14 @@ func (m *Machine) RunPath(entry *ssa.Function, sample bool) (res PathResult) {
 				// a panic of the interpreted program escaped the harness entry
 				res.End, res.Detail = "panic", m.render(r.v, nil)
 				nd, obs, ok := m.model(nil)
-				if !ok {
-					m.inconcl = true
+				if !ok && m.modelRefuted {
+					res.End = "infeasible"
+				} else {
+					if !ok {
+						m.inconcl = true
+					}
+					m.failure = &Failure{Kind: "panic", Msg: "uncaught panic: " + res.Detail, Nondets: nd, Obs: obs}
 				}
-				m.failure = &Failure{Kind: "panic", Msg: "uncaught panic: " + res.Detail, Nondets: nd, Obs: obs}
 			default:
 				panic(r)
 			}
